@@ -112,6 +112,39 @@ def programs(tier, seed):
                         yield idx, build_prog(cA, cB, items, bbody,
                                               b_by_main)
                         idx += 1
+    for p in two_clock_programs():
+        yield idx, p
+        idx += 1
+
+
+def two_clock_programs():
+    """A routine left pending on one clock and scheduled again on another
+    clock (resume(clock) / stop-reset-play(clock) / one function scheduled on
+    two clocks).  RT keeps one queue per clock, so the task stays pending on
+    both; delays are chosen so that no two wake-ups of different clocks fall
+    on the same instant (their order would be undefined in RT)."""
+    out = []
+    for other, spec in (('t2', ['tempo', 2.0]), ('a', ['app'])):
+        for d in (0.125, 0.375):
+            for how in ('resume', 'replay'):
+                if how == 'resume':
+                    act = [['pause', 'B'], ['resume', 'B', other, 0]]
+                else:
+                    act = [['stop', 'B'], ['reset', 'B'],
+                           ['play', 'B', other, 0]]
+                out.append({
+                    'clocks': {'s': ['system'], other: spec},
+                    'routines': {
+                        'A': [['seed', 7], ['yield', d]] + act +
+                             [['yield', 1.0], ['log']],
+                        'B': [['seed', 9], ['yield', 0.5], ['log'],
+                              ['send', 0.25, 31], ['yield', 0.5], ['log'],
+                              ['rand', 'rrand'], ['yield', 0.5], ['log']]},
+                    'funcs': {}, 'conds': ['c0'],
+                    'actors': {'main': [['play', 'A', 's', 0],
+                                        ['play', 'B', 's', 0]]},
+                    'horizon': 8.0})
+    return out
 
 
 # ---------------------------------------------------------------------------
@@ -407,7 +440,7 @@ def main(ctx):
         ctx.evaluations += n
     # random stream independence
     rnd = [(i, p) for i, p in progs
-           if any(st[0] == 'rand' for st in p['routines']['A'])
+           if len(p['routines']['A']) < 8 and any(st[0] == 'rand' for st in p['routines']['A'])
            and any(st[0] == 'rand' for st in p['routines']['B'])]
     progenum.run(ctx, MODNAME, 'work_indep',
                  [{'progs': b} for b in chunked(rnd, 200)], mode='nrt',
